@@ -473,6 +473,52 @@ _sig_to_string = Contract(
     ensures=['result == self._signature.to_string()'],
 )
 
+# ------------------------------------------------------------------ pass-through wrappers: own keyword-only names win
+def _region_kw_only(func):
+    """process_params: the final loop over the collected keyword-only names"""
+    import ast
+    for s_ in func.body:
+        if isinstance(s_, ast.For) and ast.unparse(s_.iter) == 'kw_only_names':
+            return [s_]
+    return None
+
+
+def _replay_wrapper_params(inp):
+    """a **kwargs pass-through wrapper with a keyword-only parameter of its own that the callee also has"""
+    from pyvc.replay import run_real
+    import jedi
+    code = ('def fetch(url, *, %s=5.0, retries=3):\n    pass\n'
+            'def wrapper(url, *, %s: float = 30.0, **kwargs):\n    return fetch(url, **kwargs)\n'
+            'wrapper(' % (inp['callee_kw'], inp['own_kw']))
+
+    def run():
+        sig = jedi.Script(code).get_signatures(5, 8)[0]
+        return sig.to_string(), [p.name for p in sig.params]
+    out = run_real(run)
+    names = ['url', inp['own_kw']] + ([inp['callee_kw']] if inp['callee_kw'] != inp['own_kw'] else []) + ['retries']
+    return {'OWN': '%s: float=30.0' % inp['own_kw'], 'NAMES': names}, out
+
+
+_kw_only_loop = Contract(
+    id='C11.process_params.keyword_only', prop='C11',
+    clause='star-resolved signatures of pass-through wrappers: every keyword-only name is listed once, and it is the '
+           'FIRST parameter collected under that name (the wrapper\'s own, with its default and annotation) - a same-named '
+           'parameter of a forwarded-to callee never replaces it',
+    file='jedi/inference/star_args.py', qualname='process_params', region=_region_kw_only,
+    params={'param_names': ANY, 'star_count': INT},
+    free={'kw_only_names': Seq(Obj('NameW')), 'used_names': SetT(STR), 'found_kwarg_signature': BOOL,
+          'original_kwarg_name': ANY, 'arg_callables': ANY, 'kwarg_callables': ANY, 'arg_names': ANY, 'kwarg_names': ANY,
+          'found_arg_signature': BOOL, 'original_arg_name': ANY, 'kw_only_names_': ANY},
+    families=['NameW'], yields=Obj('NameW'),
+    invariants={0: ['all(d.string_name in used_names for d in DONE)', 'subset(PRE_used_names, used_names)']},
+    yield_each_local=['c in kw_only_names', 'c.string_name not in used_names'],
+    yield_key='c.string_name',
+    ensures=['all(d.string_name in NEW_used_names for d in kw_only_names)'],
+    witness={}, replay=_replay_wrapper_params, concrete_only=True,
+    witness_library=[{'own_kw': 'timeout', 'callee_kw': 'timeout'}, {'own_kw': 'timeout', 'callee_kw': 'deadline'}],
+    concrete_ensures=['OWN in result[0]', 'result[1] == NAMES'],
+)
+
 # ------------------------------------------------------------------ binding of self
 _tree_params = Contract(
     id='C11.TreeSignature.get_param_names', prop='C11',
@@ -497,7 +543,7 @@ _tree_bind = Contract(
     ensures=['result == TreeSignature(value, self._function_value, True)'],
 )
 
-CONTRACTS = [_tree_params, _tree_bind] + CALC + CALC_THOROUGH + KINDS + RENDER + [_docstring, _clean_doc, _stmt_doc, _sig_index, _sig_params,
+CONTRACTS = [_tree_params, _tree_bind, _kw_only_loop] + CALC + CALC_THOROUGH + KINDS + RENDER + [_docstring, _clean_doc, _stmt_doc, _sig_index, _sig_params,
                                                        _sig_to_string]
 
 
